@@ -209,6 +209,16 @@ theorem window_insert_never_panics (ops : List Op) : Res.panic ∉ (run init ops
         all_goals simp
       cases hc : RefWindow.classify r pn <;> simp_all
 
+/-- `insert` is `insert_with_evicted` with the evicted set dropped: same state change, same
+    `Ok`/error answer (so every theorem about `insertInner` is a theorem about `insert`). -/
+theorem window_insert_eq (s : State) (pn : Nat) :
+    (SlidingWindow.insert s pn).1 = (insertInner s pn).1 ∧
+    (∀ ev, (insertInner s pn).2 = .ok ev → (SlidingWindow.insert s pn).2 = .ok ()) ∧
+    (∀ e, (insertInner s pn).2 = .err e → (SlidingWindow.insert s pn).2 = .error e) := by
+  unfold SlidingWindow.insert
+  cases h : insertInner s pn with
+  | mk s' o => cases o <;> simp
+
 /-- A rejected `insert` leaves the window unchanged (what the crate's debug check asserts). -/
 theorem window_rejected_insert_unchanged (ops : List Op) (pn : Nat) (e : Err)
     (herr : (insertInner (run init ops).1 pn).2 = .err e) :
